@@ -6,6 +6,9 @@
 //
 //	(a) req      HTTP request deviations per endpoint x {Provider router, LegacyServer
 //	             router, exported grant handler called directly}
+//	(a4) req-cfg the valid request per endpoint x router x issuer strategy, with <=k
+//	             deviations over Host / Forwarded / X-Forwarded-Host values, the device
+//	             authorization configuration and every op.Config flag (cfg_test.go)
 //	(a3) resp    histories authorize -> login -> callback over response_type x
 //	             response_mode x scenario x failing storage call, both routers
 //	             (resp_test.go)
@@ -433,7 +436,7 @@ func clip(s string, n int) string {
 
 func TestCheck(t *testing.T) {
 	c := engine.Start(t, "C09")
-	c.SetRule("E1, three parts. req: per (endpoint x entry) the baseline request and every <=k simultaneous deviations over method, content type, body mangling, Authorization header, grant_type string, added parameter, and one value-deviation slot per baseline parameter. doc: per sink (decoder type / ParseToken / verifier signed+unsigned / token consuming endpoint) every top-level shape of V and every <=k member deviations (member := absent | v in V) of the valid document, member list derived from the json tags of the sink's Go type. hostile: per client helper the full product status x body shape, plus every <=k member deviations of the valid answer. tok: full product (place that accepts a token / code / assertion) x entry x token-string alphabet T (unissued base64url of n bytes, strings sealed under the provider's crypto key with a plaintext that is not id:subject, prefixes and surface mutations of real tokens, dot skeletons, real JWTs with a malformed header / payload / signature segment, JWS JSON serialisations, tokens of other kinds); tok-pairs: two places of one request, T' x T'; tok-lib: T to every library verifier / parser / decrypter; tok-hostile: T as id_token / access_token / refresh_token of an otherwise honest token response to every client helper of the token endpoint. resp: histories authorize [-> login] -> callback [-> callback] over response_type x response_mode x scenario x fault position x fault kind x router x client/redirect x method x state x session, every request of the history judged (one WriteHeader, nothing behind a complete body, no storage call after an error answer). hostile-num: every numeric member (found by reflection) of every provider answer x numeric corner alphabet, consumed by helper chains (DeviceAuthorization -> DeviceAccessToken with the answered interval, token source twice, exchange -> refresh) x token endpoint scripts x verifier configurations, 10 min fake-time deadline. distinct = (part, oracle rule, observed outcome class)")
+	c.SetRule("E1. req-cfg: per (endpoint x router x issuer strategy) the valid request and every <=k simultaneous deviations over the Host of the request (values net/http accepts, many of them no host for url.Parse), a Forwarded header, an X-Forwarded-Host header, the DeviceAuthorizationConfig corner and the op.Config flag / option corner; same oracle as req. req: per (endpoint x entry) the baseline request and every <=k simultaneous deviations over method, content type, body mangling, Authorization header, grant_type string, added parameter, and one value-deviation slot per baseline parameter. doc: per sink (decoder type / ParseToken / verifier signed+unsigned / token consuming endpoint) every top-level shape of V and every <=k member deviations (member := absent | v in V) of the valid document, member list derived from the json tags of the sink's Go type. hostile: per client helper the full product status x body shape, plus every <=k member deviations of the valid answer. tok: full product (place that accepts a token / code / assertion) x entry x token-string alphabet T (unissued base64url of n bytes, strings sealed under the provider's crypto key with a plaintext that is not id:subject, prefixes and surface mutations of real tokens, dot skeletons, real JWTs with a malformed header / payload / signature segment, JWS JSON serialisations, tokens of other kinds); tok-pairs: two places of one request, T' x T'; tok-lib: T to every library verifier / parser / decrypter; tok-hostile: T as id_token / access_token / refresh_token of an otherwise honest token response to every client helper of the token endpoint. resp: histories authorize [-> login] -> callback [-> callback] over response_type x response_mode x scenario x fault position x fault kind x router x client/redirect x method x state x session, every request of the history judged (one WriteHeader, nothing behind a complete body, no storage call after an error answer). hostile-num: every numeric member (found by reflection) of every provider answer x numeric corner alphabet, consumed by helper chains (DeviceAuthorization -> DeviceAccessToken with the answered interval, token source twice, exchange -> refresh) x token endpoint scripts x verifier configurations, 10 min fake-time deadline. distinct = (part, oracle rule, observed outcome class)")
 	c.Assume(
 		"refstore is a correct storage (DESIGN §1.4); panics are attributed to the innermost /repo frame",
 		"a handler that writes nothing (net/http then sends 200 with an empty body) counts as one well-formed response",
@@ -447,7 +450,7 @@ func TestCheck(t *testing.T) {
 	for _, p := range []struct {
 		name string
 		run  func(*testing.T, *engine.Check)
-	}{{"req", runReq}, {"resp", runResp}, {"tok", runTok}, {"tok-lib", runTokLib}, {"tok-hostile", runTokHostile}, {"doc", runDoc}, {"doc-http", runDocHTTP}, {"hostile", runHostile}, {"hostile-num", runHostileNum}, {"hostile-timing", runTiming}} {
+	}{{"req", runReq}, {"req-cfg", runReqCfg}, {"resp", runResp}, {"tok", runTok}, {"tok-lib", runTokLib}, {"tok-hostile", runTokHostile}, {"doc", runDoc}, {"doc-http", runDocHTTP}, {"hostile", runHostile}, {"hostile-num", runHostileNum}, {"hostile-timing", runTiming}} {
 		if sel := os.Getenv("C09_PARTS"); sel != "" && !engine.Has(strings.ReplaceAll(sel, ",", " "), p.name) {
 			c.Cap("part " + p.name + " not selected (C09_PARTS, development only)")
 			continue
